@@ -51,6 +51,12 @@ class Function(Expression, metaclass=abc.ABCMeta):
 
         return deps
 
+    def is_asap_eval_paused(self, now_ms: int) -> bool:
+        # Skipping an evaluation is only safe as long as each argument that is a function could be skipped as well
+        return super().is_asap_eval_paused(now_ms) and all(
+            a.is_asap_eval_paused(now_ms) for a in self.args if isinstance(a, Function)
+        )
+
     async def eval_args(self, context: EvalContext) -> list[EvalResult]:
         # All arguments are evaluated (concurrently, as before); if some of them fail, the failure of the first failing
         # argument, in argument order, is reported (and not the one that happens to complete first on the event loop).
